@@ -1403,7 +1403,13 @@ def _aggregate(
 ) -> FinalResultsDict:
     """Final aggregation step of tree reduction"""
     results = combine(x_chunk, agg, axis, keepdims, is_aggregate=True)
-    return _finalize_results(results, agg, axis, expected_groups, reindex=reindex)
+    finalized = _finalize_results(results, agg, axis, expected_groups, reindex=reindex)
+    if expected_groups is None and np.ndim(finalized["groups"]) == 1:
+        # labels discovered at compute time: the placeholder label (NaN) of all-missing blocks is not a group
+        keep = notnull(finalized["groups"])
+        if not keep.all():
+            finalized = {k: v[..., keep] for k, v in finalized.items()}
+    return finalized
 
 
 def _expand_dims(results: IntermediateDict) -> IntermediateDict:
